@@ -46,6 +46,7 @@ _RULES = [
     ("comment-in-labelled-pattern-field-layout", ("not-idempotent",), None, r"\{[^{}]*\b[a-z]\w* // \S+\s*:|\{[^{}]*\b[a-z]\w* : // "),
     ("comment-before-module-comments-layout", ("not-idempotent",), None, r"// \S+\s*//// "),
     ("comment-at-end-of-module-blank-lines-layout", ("not-idempotent",), None, r"// \S+\s*⏎⏎\s*$"),
+    ("unary-on-operator-value-glued", None, None, r"(?:-|!)\s*(?:\+|-|\*|/|%|==|!=|<=|>=|<|>|&&|\|\||=)\s*[,)}\]]"),
     ("comment-placement-not-idempotent", ("not-idempotent",), None, r"// "),
     ("empty-data-type", None, None, r"\btype [A-Z]\w*(?:<[^>]*>)? \{ \}"),
 ]
